@@ -159,7 +159,7 @@ WCHAR_COND = re.compile(r"^\(\s*\(\s*\(\s*wchar_t\s*\)\s*-\s*1\s*\)\s*>\s*0\s*\?
 
 
 def _macro_body(t, name):
-    m = re.search(r"^[ \t]*#[ \t]*define[ \t]+%s\b(.*(?:\\\n.*)*)" % name, t, re.M)
+    m = re.search(r"^[ \t]*#[ \t]*define[ \t]+%s\b((?:.*\\\n)*.*)" % name, t, re.M)
     if not m:
         raise Untranslatable("#define %s not found" % name)
     return m.group(1).replace("\\\n", " ")
@@ -237,7 +237,7 @@ def c_enum_primitive_types(text):
 def c_prim_int_macro(text, name="_cffi_prim_int"):
     """((size) == K ? ((sign) ? A : B) : ... : D)  ->  ([(K, A, B)], D)  (identifiers without _CFFI_PRIM_/_CFFI__)"""
     t = strip_c_comments(text)
-    m = re.search(r"^[ \t]*#[ \t]*define[ \t]+%s\(size, sign\)(.*(?:\\\n.*)*)" % name, t, re.M)
+    m = re.search(r"^[ \t]*#[ \t]*define[ \t]+%s\(size, sign\)((?:.*\\\n)*.*)" % name, t, re.M)
     if not m:
         raise Untranslatable("#define %s(size, sign) not found" % name)
     body = " ".join(m.group(1).replace("\\\n", " ").split())
